@@ -38,6 +38,20 @@ func c04Binding(name string) (map[string]interface{}, bool) {
 		return map[string]interface{}{"p": map[string]interface{}{"duration": "10s"}}, true
 	case "dur_bad":
 		return map[string]interface{}{"p": map[string]interface{}{"duration": "xx"}}, true
+	case "dur_cut_micro": // a micro sign cut in half: the lone byte 0xC2 ends the text
+		return map[string]interface{}{"p": map[string]interface{}{"duration": "5\xc2"}}, true
+	case "dur_micro_only":
+		return map[string]interface{}{"p": map[string]interface{}{"duration": "µ"}}, true
+	case "dur_digits_last":
+		return map[string]interface{}{"p": map[string]interface{}{"duration": "1h5"}}, true
+	case "dur_ff":
+		return map[string]interface{}{"p": map[string]interface{}{"duration": "1\xffs"}}, true
+	case "str_badutf8":
+		return map[string]interface{}{"p": "a\xc2"}, true
+	case "regex_badutf8":
+		return map[string]interface{}{"p": map[string]interface{}{"regex": "a\xc2"}}, true
+	case "ident_badutf8":
+		return map[string]interface{}{"p": map[string]interface{}{"ident": "\xe2\x82"}}, true
 	case "dur_overflow":
 		return map[string]interface{}{"p": map[string]interface{}{"duration": "99999999999999999999w"}}, true
 	case "dur_int":
@@ -154,6 +168,16 @@ func c04Family(name string, n int) string {
 		return "SELECT " + rep("$", n) + " FROM m"
 	case "bad_bytes":
 		return "SELECT " + rep("\xff", n) + " FROM m"
+	case "into_dots_colon": // a target name with n dots before :MEASUREMENT (three segments are the limit)
+		return "SELECT v INTO a" + rep(".", n) + ":MEASUREMENT FROM m"
+	case "into_dots_regex":
+		return "SELECT v INTO a.b" + rep(".", n) + "/x/ FROM m"
+	case "from_dots_regex":
+		return "SELECT v FROM a" + rep(".", n) + "/x/"
+	case "now_calls": // many calls without arguments in one statement (nothing is nested)
+		return "SELECT v FROM m WHERE time > now()" + rep(" AND time > now()", n)
+	case "empty_calls_query": // ... and across the statements of one query
+		return rep("SELECT v FROM m WHERE time > now(); ", n) + "SHOW DATABASES"
 	}
 	return ""
 }
@@ -278,6 +302,32 @@ func c04Outcome(entry, text string, params map[string]interface{}, setParams boo
 	return o
 }
 
+// c04Reuse: ONE parser is driven to the end of its input with ParseQuery and then asked again - ParseQuery,
+// ParseStatement, ParseExpr - and a second parser is created and used in between.  Every call must return (a
+// result or an error); what it returns is not recorded, only whether it panicked.
+func c04Reuse(text string, params map[string]interface{}, setParams bool) M {
+	o := M{"out": "ok", "post": "ok", "steps": 0, "maxn": 0, "tmaxn": 0}
+	p := guard(func() {
+		ps := influxql.NewParser(strings.NewReader(text))
+		if setParams {
+			ps.SetParams(params)
+		}
+		ps.ParseQuery()
+		ps.ParseQuery()
+		other := influxql.NewParser(strings.NewReader("SELECT v FROM m; SHOW DATABASES"))
+		other.ParseStatement()
+		ps.ParseStatement()
+		ps.ParseExpr()
+		other.ParseQuery()
+		other.ParseQuery()
+	})
+	if p != "" {
+		o["out"] = "panic"
+		o["msg"] = p
+	}
+	return o
+}
+
 func init() {
 	register("c04", &Suite{Serial: true, Run: func(c M) M {
 		o := M{}
@@ -306,6 +356,7 @@ func init() {
 		for _, ent := range []string{"query", "stmt", "expr"} {
 			o[ent] = c04Outcome(ent, text, params, set, 64, true)
 		}
+		o["reuse"] = c04Reuse(text, params, set)
 		if !set {
 			for _, ent := range []string{"query_s", "stmt_s", "expr_s"} {
 				o[ent] = c04Outcome(ent, text, nil, false, 64, false)
